@@ -6,6 +6,7 @@ import (
 	"encoding/json"
 	"fmt"
 	"github.com/bartventer/httpcache/verifsim/kit"
+	"github.com/bartventer/httpcache/verifsim/simclock"
 	"os"
 	"runtime"
 	"sort"
@@ -138,6 +139,7 @@ func Exec(t *testing.T, scn *Scenario) (r *Run, jd *Judged) {
 	// "UTC" depends on it
 	// (the zone is written into the Location that time.Local points to, after making sure it has been
 	// initialised: the pointer itself is read by every time.Now(), also by the watchdog goroutine)
+	simclock.Reset()
 	_ = time.Now().Local().String()
 	saved := *time.Local
 	if scn.TZMin != 0 {
